@@ -502,6 +502,181 @@ def r07e(ctx):
         ctx.proved("R07e", "-", "-", None, "no shared memo", "no class-level mutable container is written through self in node/edit/formatter methods")
 
 
+def r07f(ctx, inst):
+    m = ctx.model
+    ctx.rule("R07f", "no memory address in text: str()/repr() of nodes and edits is printed (--only-edits prints str(edit), reprs "
+                     "nest node reprs) and str(leaf.object) prices leaf matches, so every concrete node class, every concrete edit "
+                     "class and every project class the package wraps as a leaf's object resolves __repr__ (or __str__) to a "
+                     "project-defined method - object.__repr__ embeds id(), which differs from run to run")
+    TREE = "graphtage.tree.TreeNode"
+    n = 0
+    classes = [q for q in sorted(m.classes) if not m.is_abstract(q) and (
+        (m.is_subclass(q, TREE) and not m.is_subclass(q, "graphtage.tree.EditedTreeNode"))
+        or (m.method(q, "tighten_bounds") is not None and m.method(q, "on_diff") is not None))]
+    compound = m.find_class("CompoundEdit")
+    for q in classes:
+        if q not in inst and not m.is_subclass(q, TREE):
+            continue
+        if compound and m.is_subclass(q, compound):
+            # get_all_edits / explode_edits never yield a compound edit (they descend into edits()), and node and constant-edit
+            # reprs embed nodes only: a compound edit's own text is not printed
+            continue
+        n += 1
+        short = q.rsplit(".", 1)[-1]
+        r = m.method(q, "__repr__") or m.method(q, "__str__")
+        mod, node = m.classes[q]
+        if r is None:
+            ctx.violation("R07f", m.files[mod], short, node, f"{short} repr",
+                          f"{short} inherits object.__repr__: its text is '<...{short} object at 0x...>', and that text reaches the "
+                          f"output through str(edit) / nested reprs (e.g. `Replace(to_replace=..., replace_with=<{short} object at "
+                          f"0x7f..>)` with --only-edits), so two runs on the same input print different bytes")
+        else:
+            ctx.proved("R07f", m.files[mod], short, node, f"{short} repr", f"{r.short} is project-defined", nontrivial=False)
+    ctx.floor("R07f", n, 35, "concrete node and constant-edit classes")
+    # project classes wrapped as a leaf's object
+    leaf = m.need_class("LeafNode")
+    k = 0
+    for q in sorted(m.subclasses(leaf, strict=True)):
+        init = m.attrs[q].get("__init__")
+        if not init or init[0] != "def":
+            continue
+        for c in walk_no_nested(init[1].node):
+            if isinstance(c, ast.Call) and isinstance(c.func, ast.Attribute) and c.func.attr == "__init__" and c.args \
+                    and isinstance(c.args[0], ast.Call):
+                w = m.resolve_class(init[1].module, c.args[0].func)
+                if w is None:
+                    continue
+                k += 1
+                short, ws = q.rsplit(".", 1)[-1], w.rsplit(".", 1)[-1]
+                if m.method(w, "__repr__") is None and m.method(w, "__str__") is None:
+                    ctx.violation("R07f", init[1].file, f"{short}.__init__", c, f"{short} wraps {ws}",
+                                  f"{short} stores `{norm(c.args[0], 40)}` as its object and {ws} inherits object.__repr__: "
+                                  f"LeafNode.edits prices a match by levenshtein_distance(str(a.object), str(b.object)) - here the "
+                                  f"distance between two memory addresses - so the cost of the same comparison changes between calls")
+                else:
+                    ctx.proved("R07f", init[1].file, f"{short}.__init__", c, f"{short} wraps {ws}", f"{ws} defines its own text")
+    ctx.floor("R07f", k, 1, "project classes wrapped as leaf objects")
+
+
+PROCESS_WIDE_WRAPPERS = {"colorama.init": "wraps sys.stdout and sys.stderr in one more stream wrapper on every call"}
+
+
+def r07g(ctx):
+    m = ctx.model
+    ctx.rule("R07g", "process-wide installers run at most once: colorama.init() re-wraps sys.stdout/sys.stderr on every call, so it "
+                     "may only be called at module level or under a once-only guard (a module-level flag tested before and set "
+                     "with the call); called per Printer, repeated comparisons in one process nest wrappers until a write "
+                     "raises RecursionError")
+    n = 0
+    for fq, f in sorted(m.functions.items()):
+        for c in walk_no_nested(f.node):
+            if not isinstance(c, ast.Call):
+                continue
+            r = m.resolve_expr(f.module, c.func)
+            name = r[0][1] if r and r[0] and r[0][0] == "ext" else None
+            if name not in PROCESS_WIDE_WRAPPERS:
+                continue
+            n += 1
+            globs = {x for g in walk_no_nested(f.node) if isinstance(g, ast.Global) for x in g.names}
+            guard = None
+            p_ = parent(c)
+            while p_ is not None and p_ is not f.node:
+                if isinstance(p_, ast.If) and isinstance(p_.test, ast.UnaryOp) and isinstance(p_.test.op, ast.Not) \
+                        and isinstance(p_.test.operand, ast.Name) and p_.test.operand.id in globs:
+                    flag = p_.test.operand.id
+                    sets = any(isinstance(a, ast.Assign) and isinstance(a.targets[0], ast.Name) and a.targets[0].id == flag
+                               and isinstance(a.value, ast.Constant) and a.value.value is True for a in p_.body)
+                    if sets:
+                        guard = flag
+                p_ = parent(p_)
+            if guard:
+                ctx.proved("R07g", f.file, f.short, c, f"{name} once", f"`{name}()` runs only while the module flag `{guard}` is unset, and sets it")
+            else:
+                ctx.violation("R07g", f.file, f.short, c, f"{name} once",
+                              f"`{norm(c, 40)}` in {f.short} runs on every call of that function and {PROCESS_WIDE_WRAPPERS[name]}: "
+                              f"after a few hundred coloured comparisons in one process the next write to stdout/stderr raises "
+                              f"RecursionError (and earlier, output changes when a stream is swapped between calls)")
+    ctx.floor("R07g", n, 1, "process-wide installer calls")
+
+
+def r07h(ctx):
+    m = ctx.model
+    ctx.rule("R07h", "formatters leave the caller's printer as they found it: a plain assignment to an attribute of the printer "
+                     "parameter inside a formatter method is undone in a `finally` of the same method from a value saved before "
+                     "the assignment (a Printer is reused across formatters: DEFAULT_PRINTER, pydiff.print_diff(printer=...))")
+    FORM = "graphtage.formatter.Formatter"
+    n = 0
+    for q in sorted(m.subclasses(FORM)):
+        for name, (kind, f) in sorted(m.attrs[q].items()):
+            if kind != "def":
+                continue
+            ps = func_params(f.node)
+            if len(ps) < 2:
+                continue
+            pr = ps[1]
+            stores = [a for a in walk_no_nested(f.node) if isinstance(a, ast.Assign) and isinstance(a.targets[0], ast.Attribute)
+                      and isinstance(a.targets[0].value, ast.Name) and a.targets[0].value.id == pr]
+            by_attr = {}
+            for a in stores:
+                by_attr.setdefault(a.targets[0].attr, []).append(a)
+            for attr, sts in sorted(by_attr.items()):
+                n += 1
+                saved = {a.targets[0].id for a in walk_no_nested(f.node) if isinstance(a, ast.Assign) and isinstance(a.targets[0], ast.Name)
+                         and ast.unparse(a.value).replace(" ", "") == f"{pr}.{attr}"}
+                restored = any(isinstance(t, ast.Try) and any(isinstance(a, ast.Assign) and a in sts and isinstance(a.value, ast.Name)
+                                                              and a.value.id in saved for s_ in t.finalbody for a in ast.walk(s_))
+                               for t in walk_no_nested(f.node))
+                short = f"{q.rsplit('.', 1)[-1]}.{name}"
+                if restored:
+                    ctx.proved("R07h", f.file, short, sts[0], f"{pr}.{attr} restored", f"{pr}.{attr} is saved, set and restored in a finally block")
+                else:
+                    ctx.violation("R07h", f.file, short, sts[0], f"{pr}.{attr} restored",
+                                  f"`{norm(sts[0], 50)}` overwrites an attribute of the caller's printer and {short} never restores "
+                                  f"it: a Printer that has rendered with this formatter renders later diffs differently (JSON "
+                                  f"indent 4 becomes 2 after YAML, 8 after plist) - the same comparison, repeated on the same Printer, "
+                                  f"gives different bytes")
+    ctx.floor("R07h", n, 2, "printer attributes assigned by formatter methods")
+
+
+def r07i(ctx):
+    m = ctx.model
+    ctx.rule("R07i", "object graphs: a builder registered for a hash-ordered Python type (set, frozenset) receives its children in "
+                     "the iteration order of that object; the node it builds keeps insertion order (HashableCounter) and that "
+                     "order is printed, so either the expander or the builder must put the children into a canonical order "
+                     "(sorted(...)) - as DictNode.from_dict does for mappings")
+    n = 0
+    for fq, f in sorted(m.functions.items()):
+        regs = {"builder": set(), "expander": set()}
+        for d in f.node.decorator_list:
+            if isinstance(d, ast.Call) and isinstance(d.func, ast.Attribute) and d.func.attr in regs and d.args:
+                regs[d.func.attr].add(dotted(d.args[0]))
+        hashed = regs["builder"] & {"set", "frozenset"}
+        if not hashed:
+            continue
+        n += 1
+        ps = func_params(f.node)
+        kids = ps[2] if len(ps) > 2 else None
+        rets = [r for r in walk_no_nested(f.node) if isinstance(r, ast.Return) and isinstance(r.value, ast.Call)]
+        canon = rets and all(any(isinstance(x, ast.Call) and call_name(x) == "sorted" for x in ast.walk(r.value)) for r in rets)
+        # or the expander registered for the same types sorts
+        for gq, g in m.functions.items():
+            eregs = {dotted(d.args[0]) for d in g.node.decorator_list if isinstance(d, ast.Call) and isinstance(d.func, ast.Attribute)
+                     and d.func.attr == "expander" and d.args}
+            if g.cls == f.cls and hashed <= eregs:
+                ys = [y for y in walk_no_nested(g.node) if isinstance(y, (ast.Yield, ast.YieldFrom, ast.Return)) and y.value is not None]
+                if ys and all(any(isinstance(x, ast.Call) and call_name(x) == "sorted" for x in ast.walk(y.value)) for y in ys):
+                    canon = True
+        if canon:
+            ctx.proved("R07i", f.file, f.short, f.node, f"{f.short} canonical order", "children of a hash-ordered object are sorted before the node is built")
+        else:
+            ctx.violation("R07i", f.file, f.short, rets[0] if rets else f.node, f"{f.short} canonical order",
+                          f"{f.short} is registered for {sorted(hashed)} and builds `{norm(rets[0].value, 50) if rets else '?'}` from children that "
+                          f"arrive in the set's iteration order; for members with seed-dependent hashes (str, bytes, tuples of them) "
+                          f"that order - and with it the printed element order and the matcher's tie-breaking - changes with "
+                          f"PYTHONHASHSEED")
+    ctx.floor("R07i", n, 1, "builders registered for set / frozenset")
+
+
 def run(ctx):
     m = ctx.model
     cg = CallGraph(m)
@@ -514,5 +689,11 @@ def run(ctx):
     r07c(ctx)
     r07d(ctx, reach)
     r07e(ctx)
+    r07f(ctx, inst)
+    r07g(ctx)
+    r07h(ctx)
+    r07i(ctx)
+    ctx.assume("the CLI entry point owns its process: main() closes the stream it printed to (sys.stdout), so calling main() "
+               "twice on the real stdout in one process is not part of what is decided (callers pass their own stream)")
     ctx.assume("third-party libraries (scipy assignment, json/yaml/plist encoders, intervaltree iteration) are deterministic")
     ctx.assume("dict and Counter iteration is insertion-ordered (CPython >= 3.7); only set/frozenset order is hash-dependent")
